@@ -10,6 +10,7 @@ import Mdsort.Proofs.MainTextMacros
 import Mdsort.Proofs.MainTextLex
 import Mdsort.Proofs.MainTextLexTree
 import Mdsort.Proofs.ConfCfg4
+import Mdsort.Proofs.ConfAnywhere7
 
 /-!
 # C14 - a configuration is accepted or rejected as a whole, and the parser is total
@@ -556,6 +557,15 @@ example :
       some [([], "v".toUTF8.toList), ("a".toUTF8.toList, "b=c".toUTF8.toList), ("match".toUTF8.toList, [])] := by
   decide +kernel
 
+/-- What "after `getopt`" means for the models of `main`: the option string of the `getopt` call in mdsort.c (regenerated:
+`Gen.optstring`) declares exactly the options the models take as parameters - `-D name=value` with an argument (the `defs` of
+`mainText`), `-d` (`PEnv.dry`), `-f file` with an argument (`confpath`; `fOpt` of `Model.startPaths`), `-n` (syntax check
+only), `-v` (verbosity: logging is outside every model) - and no other.  A new or removed option letter in the source makes
+this false. -/
+theorem C14_getopt_options :
+    Model.optSpec Gen.getoptString.toList = [('D', true), ('d', false), ('f', true), ('n', false), ('v', false)] := by
+  decide
+
 /-- Accepted text runs its tree: when `parseConfig` accepts, its blocks are trees of the evaluator (no
 empty block: `confBlocksOf` succeeds and loses nothing, `toPBlocks conf = blocks`) and `mainText` IS
 `mainP` with verdict "accepted" over exactly these trees - as an equality of programs, so every theorem
@@ -648,15 +658,16 @@ theorem C14_error_classes_lexer (pf sf am : Bool) (input : Bytes) :
 
 /-- The lexer-level classes as a statement about whole files: for EVERY byte string `parseConfig` accepts,
 no pattern anywhere in its trees carries both `l` and `u`, and every age is `n * unit` for an `n` below
-2^32 and one of the seven units (an ambiguous or unknown unit, or an integer that does not fit, never
-gets into a tree).  So a configuration in which the parser reads such a token - in any block, at any
+2^32 and `unit` one of the values of `Gen.scalars`, the table `scalars[]` of parse.y regenerated on every run (that
+this table is the documented one - seven units, 1 ... 31536000 - is `C15_units`; an ambiguous or unknown unit, or an
+integer that does not fit, never gets into a tree).  So a configuration in which the parser reads such a token - in any block, at any
 depth, next to whatever else - is not accepted. -/
 theorem C14_error_classes_tokens (home : Bytes) (defs : List (Bytes × Bytes)) (rxOk : Pat → Bool) (input : Bytes) (e : Expr)
     (h : Proofs.Conf.AcceptedNode home defs rxOk input (.leaf e)) :
     (∀ l p, e = .body l p → (p.lcase && p.ucase) = false) ∧
     (∀ l ns p, e = .header l ns p → (p.lcase && p.ucase) = false) ∧
     (∀ l f c age, e = .date l f c age →
-      ∃ n v, age = n * v ∧ n < 2 ^ 32 ∧ v ∈ [1, 60, 3600, 86400, 604800, 2592000, 31536000]) := by
+      ∃ n v, age = n * v ∧ n < 2 ^ 32 ∧ v ∈ Gen.scalars.map (·.2)) := by
   have hc := Proofs.MainText.accepted_leaf_clean h
   refine ⟨fun l p he => by subst he; exact hc, fun l ns p he => by subst he; exact hc, fun l f c age he => ?_⟩
   subst he
@@ -686,6 +697,184 @@ example :
     Proofs.Conf.isErrorAt 3 (parseConfig [] [] (fun _ => true)
       "maildir \"q\" {\n match date >\n 4294967296 seconds break }".toUTF8.toList) = true ∧
     (lex1 true false false " /a/lu x".toUTF8.toList).errors = 1 ∧ (lex1 false true false " m x".toUTF8.toList).errors = 1 := by
+  decide +kernel
+
+/-! ## Error classes at EVERY position of a written configuration
+
+The theorems `C14_error_second_stdin`, `C14_error_macro_reference`, `C14_error_unknown_unit`, `C14_error_exec_option_repeated`
+above speak of one
+parser function started in an arbitrary state.  `C14_error_anywhere_rejects_file` lifts them to whole files: take
+what `Spec.printBlocks` writes of a configuration of `Spec.ConfOK` up to ANY position (`Spec.RulePos`: behind any
+number of complete blocks, in a `stdin` or `maildir` block, behind any number of complete rules, and - to any
+depth - inside the nested block of a rule or the block of an `attachment` action; `Spec.ActPos`: behind
+`match cond` and any number of complete actions of a rule there; `Spec.CondPos`: in the condition of a rule
+there, behind any sequence of `!`, `attachment`, `(`, `( cond and`, `( cond or`), write the defect, and then
+ANYTHING (`tl`: nothing, or a blank and arbitrary bytes - in particular the rest of the well-formed file):
+`parseConfig` reports a diagnostic, and the first one is on line 1 (the written part has no newline; `tl`
+may have).  With `C14_reject_whole_text`: such a file leaves every maildir untouched.
+
+The proof is the lifting lemma the local theorems lacked: the read-back lemmas behind
+`C14_accepts_grammar_partial` hold in front of arbitrary text and for any postcondition of the error outcome
+(Proofs/ConfRT1-5.lean: `Up cx tl s ts`, `RT`, `Goal`), so they bring the parser to the position; there the
+local function fails (Proofs/ConfAnywhere2-3.lean), and an error passes through every continuation
+(`wpl_bind`; Proofs/ConfAnywhere1, 4).  The budget of `parseConfig` is not exhausted (`C14_parser_total`). -/
+
+/-- A string with a macro reference that cannot be expanded in a written configuration (which defines no macro):
+its first `$` starts `${name}`, and `name` is not `path` - or the string stands where `${path}` is not allowed
+(`action = false`: everywhere but in `move`, `label`, `exec` and the value of `add-header`). -/
+example : Spec.BadRef true "in${box}/x".toUTF8.toList ∧ Spec.BadRef false "${path}".toUTF8.toList ∧
+    ¬ Spec.strOK "in${box}/x".toUTF8.toList = true :=
+  ⟨⟨by decide +kernel, "in".toUTF8.toList, "box".toUTF8.toList, "/x".toUTF8.toList, by decide +kernel, by decide +kernel,
+      by decide +kernel, by decide +kernel⟩,
+   ⟨by decide +kernel, [], "path".toUTF8.toList, [], by decide +kernel, by decide +kernel, by decide +kernel, fun _ => rfl⟩,
+   by decide +kernel⟩
+
+/-- A defect of one of the classes "stdin already defined", "unknown macro" / "macro used in wrong context", unknown or
+ambiguous unit, "exec options cannot be repeated", written at ANY position of a written configuration - behind any well-formed
+blocks, rules, actions and parts of a condition, at any nesting depth (`Spec.RulePos`, `ActPos`, `CondPos`, all of whose
+parts must be well formed: `.ok`) - and followed by ANY text `tl`, makes `parseConfig` report a diagnostic; the first one is
+on line 1 (the written prefix is one line).  Hypotheses besides `.ok`: `Spec.BadRef` (the FIRST `$` of the string starts the
+reference, the name is not `path` or the context is not an action, the string itself is one STRING token), the strings before it in
+the same list mean themselves, the number of a `date` fits 32 bits, the unit word is a word (`Spec.badUnitWord`) and ends where
+it ends.  Not covered: files in another layout than `Spec.printBlocks` writes (checked by differential execution, stage 1c' of
+tools/props/c14.py), macro definitions before the defect, the lexer's own diagnostics. -/
+theorem C14_error_anywhere_rejects_file (home : Bytes) (rxOk : Pat → Bool) (tl : Bytes) (htl : Spec.tailOK tl = true) :
+    -- "stdin already defined": a block written `stdin` behind a block that reads from stdin, at any two positions
+    (∀ (pre : List PBlock) (b1 : PBlock) (mid : List PBlock) (b2 : PBlock) (post : List PBlock),
+      Spec.ConfOK rxOk (pre ++ b1 :: mid) = true → b1.paths.any isStdinStr = true → b2.paths = [stdinStr] →
+      parseConfig home [] rxOk (Spec.printBlocks (pre ++ b1 :: (mid ++ b2 :: post))) = .error 1) ∧
+    (∀ (pre : List PBlock), Spec.ConfOK rxOk pre = true → (pre.any fun x => x.paths.any isStdinStr) = true →
+      parseConfig home [] rxOk (Spec.render (pre.flatMap Spec.blockToks ++ [.kw .stdin]) ++ tl) = .error 1) ∧
+    -- "unknown macro" / "macro used in wrong context" in a string of an action: any action, any action position
+    (∀ (p : Spec.ActPos) (site : Spec.ActSite) (b : Bytes), p.ok rxOk = true → site.ok = true → Spec.BadRef site.action b →
+      parseConfig home [] rxOk (Spec.render (p.toks ++ site.toks b) ++ tl) = .error 1) ∧
+    -- ... in a string of a condition: `header`, `isdirectory`, `command`, at any operand position of any condition
+    (∀ (p : Spec.CondPos) (site : Spec.CondSite) (b : Bytes), p.ok rxOk = true → site.ok = true → Spec.BadRef false b →
+      parseConfig home [] rxOk (Spec.render (p.toks ++ site.toks b) ++ tl) = .error 1) ∧
+    -- ... in a path of a `maildir` block, behind any complete blocks
+    (∀ (pre : List PBlock) (l1 l2 : List Bytes) (b : Bytes), Spec.ConfOK rxOk pre = true → l1.all Spec.strOK = true →
+      l2.all Spec.strLexOK = true → Spec.BadRef false b →
+      parseConfig home [] rxOk
+        (Spec.render (pre.flatMap Spec.blockToks ++ (.kw .maildir :: Spec.strsToks (l1 ++ b :: l2))) ++ tl) = .error 1) ∧
+    -- "unknown unit": a `date` condition, at any operand position of any condition, whose unit is a word that is a
+    -- keyword, or a prefix of no unit, or of several ("ambiguous keyword")
+    (∀ (p : Spec.CondPos) (f : DateField) (c : DateCmp) (n : Nat) (w tail : Bytes), p.ok rxOk = true → n < 2 ^ 32 →
+      Spec.badUnitWord w = true → (∀ x, tail.head? = some x → isKwChar x = false) →
+      parseConfig home [] rxOk
+        (Spec.render (p.toks ++ (.kw .date :: (Spec.fieldToks f ++ [Spec.cmpTok c, .int n]))) ++ 32 :: (w ++ tail)) = .error 1) ∧
+    -- "exec options cannot be repeated": `exec` with `stdin` or `body` twice among its options, at any action position
+    (∀ (p : Spec.ActPos) (opts : List Kw), p.ok rxOk = true → Spec.optsRepeat opts = true →
+      parseConfig home [] rxOk (Spec.render (p.toks ++ (.kw .exec :: opts.map Spec.PTok.kw)) ++ tl) = .error 1) :=
+  ⟨fun pre b1 mid b2 post h1 h2 h3 => Proofs.Conf.second_stdin_file home rxOk pre b1 mid b2 post h1 h2 h3,
+   fun pre h1 h2 => Proofs.Conf.anywhere_second_stdin home rxOk pre h1 h2 tl htl,
+   fun p site b hp hs hb => Proofs.Conf.anywhere_action_string home rxOk p hp site hs b hb tl htl,
+   fun p site b hp hs hb => Proofs.Conf.anywhere_cond_string home rxOk p hp site hs b hb tl htl,
+   fun pre l1 l2 b hpre h1 h2 hb => Proofs.Conf.anywhere_path home rxOk pre hpre l1 l2 h1 h2 b hb tl htl,
+   fun p f c n w tail hp hn hw ht => Proofs.Conf.anywhere_unit home rxOk p hp f c n hn w tail hw ht,
+   fun p opts hp ho => Proofs.Conf.anywhere_exec_option home rxOk p hp opts ho tl htl⟩
+
+/-! Non-vacuity of `C14_error_anywhere_rejects_file`, on concrete files: the positions and sites satisfy the
+hypotheses, the text is the one shown, the well-formed file is accepted and the file with the defect rejected on line 1. -/
+
+/-- A string in the fourth action-carrying rule, three blocks deep (a nested block, an attachment block), behind another
+block: `exec stdin { "z" "${u}" "w" }`. -/
+example :
+    let p : Spec.ActPos :=
+      { rp := { pre := [⟨[[97]], .block 1 (.mtch 1 (.leaf (.all 1)) (.leaf (.brk 1)))⟩], paths := [stdinStr],
+                steps := [.rule (.mtch 1 (.leaf (.new 1)) (.leaf (.pass 1))), .nested (.leaf (.old 1)),
+                          .attach (.leaf (.all 1)) [.leaf (.exec 1 false false [[120]])]] },
+        cond := .leaf (.all 1), acts := [.leaf (.exec 1 false false [[121]])] }
+    let site : Spec.ActSite := .exec true false [[122]] [[119]]
+    let close : Bytes := Spec.render [.rbrace, .rbrace, .rbrace]
+    p.ok (fun _ => true) = true ∧ site.ok = true ∧ site.action = true ∧ Spec.tailOK close = true ∧
+    Spec.render (p.toks ++ site.toks "${u}".toUTF8.toList) ++ close =
+      (" maildir { \"a\" } { match all break } stdin { match new pass match old { match all exec { \"x\" } attachment {" ++
+       " match all exec { \"y\" } exec stdin { \"z\" \"${u}\" \"w\" } } } }").toUTF8.toList ∧
+    Proofs.Conf.isOkNonempty (parseConfig [] [] (fun _ => true) (Spec.render (p.toks ++ site.toks [118]) ++ close)) = true ∧
+    Proofs.Conf.isErrorAt 1 (parseConfig [] [] (fun _ => true)
+      (Spec.render (p.toks ++ site.toks "${u}".toUTF8.toList) ++ close)) = true ∧
+    -- the same position, `exec stdin body stdin { "z" } } } }`
+    Spec.optsRepeat [.stdin, .body, .stdin] = true ∧ Spec.optsRepeat [.stdin, .body] = false ∧
+    Proofs.Conf.isOkNonempty (parseConfig [] [] (fun _ => true)
+      (Spec.render (p.toks ++ (.kw .exec :: [Kw.stdin, .body].map Spec.PTok.kw)) ++ Spec.render (Spec.strsToks [[122]]) ++ close)) = true ∧
+    Proofs.Conf.isErrorAt 1 (parseConfig [] [] (fun _ => true)
+      (Spec.render (p.toks ++ (.kw .exec :: [Kw.stdin, .body, .stdin].map Spec.PTok.kw)) ++ (Spec.render (Spec.strsToks [[122]]) ++ close))) = true := by
+  decide +kernel
+
+/-- An operand deep in a condition of a rule of a nested block: `isdirectory "${path}"`, and `date > 3` with the words
+`foo` (no unit), `m` (`minutes` or `months`), `match` (a keyword) instead of a unit; `se` is a unit. -/
+example :
+    let p : Spec.CondPos :=
+      { rp := { pre := [], paths := [[109]], steps := [.nested (.leaf (.all 1))] },
+        steps := [.bang, .andR (.leaf (.new 1)), .att, .lpar] }
+    let rest : Bytes := Spec.render [.kw .or, .kw .old, .rparen, .rparen, .kw .brk, .rbrace, .rbrace]
+    let date : List Spec.PTok := .kw .date :: (Spec.fieldToks .header ++ [Spec.cmpTok .gt, .int 3])
+    p.ok (fun _ => true) = true ∧ Spec.tailOK rest = true ∧
+    Spec.render (p.toks ++ date) ++ 32 :: ("foo".toUTF8.toList ++ rest) =
+      " maildir { \"m\" } { match all { match ! ( new and attachment ( date > 3 foo or old ) ) break } }".toUTF8.toList ∧
+    Spec.badUnitWord "foo".toUTF8.toList = true ∧ Spec.badUnitWord "m".toUTF8.toList = true ∧
+    Spec.badUnitWord "match".toUTF8.toList = true ∧ Spec.badUnitWord "se".toUTF8.toList = false ∧
+    Proofs.Conf.isOkNonempty (parseConfig [] [] (fun _ => true)
+      (Spec.render (p.toks ++ date) ++ 32 :: ("se".toUTF8.toList ++ rest))) = true ∧
+    Proofs.Conf.isErrorAt 1 (parseConfig [] [] (fun _ => true)
+      (Spec.render (p.toks ++ date) ++ 32 :: ("foo".toUTF8.toList ++ rest))) = true ∧
+    Proofs.Conf.isErrorAt 1 (parseConfig [] [] (fun _ => true)
+      (Spec.render (p.toks ++ date) ++ 32 :: ("m".toUTF8.toList ++ rest))) = true ∧
+    Proofs.Conf.isErrorAt 1 (parseConfig [] [] (fun _ => true)
+      (Spec.render (p.toks ++ date) ++ 32 :: ("match".toUTF8.toList ++ rest))) = true ∧
+    Proofs.Conf.isOkNonempty (parseConfig [] [] (fun _ => true)
+      (Spec.render (p.toks ++ Spec.CondSite.isdirectory.toks [100]) ++ rest)) = true ∧
+    Proofs.Conf.isErrorAt 1 (parseConfig [] [] (fun _ => true)
+      (Spec.render (p.toks ++ Spec.CondSite.isdirectory.toks "${path}".toUTF8.toList) ++ rest)) = true := by
+  decide +kernel
+
+/-- A path of the second `maildir` block; a block written `stdin` behind a `maildir` block one of whose paths is the
+standard input, with a block between them and one behind. -/
+example :
+    let b : PBlock := ⟨[[97]], .block 1 (.mtch 1 (.leaf (.all 1)) (.leaf (.brk 1)))⟩
+    let b1 : PBlock := ⟨[[98], stdinStr], .block 1 (.mtch 1 (.leaf (.all 1)) (.leaf (.brk 1)))⟩
+    let b2 : PBlock := ⟨[stdinStr], .block 1 (.mtch 1 (.leaf (.all 1)) (.leaf (.discard 1)))⟩
+    let body : Bytes := Spec.render [.lbrace, .kw .mtch, .kw .all, .kw .brk, .rbrace]
+    Spec.ConfOK (fun _ => true) [b] = true ∧ Spec.ConfOK (fun _ => true) ([b] ++ b1 :: [b]) = true ∧
+    b1.paths.any isStdinStr = true ∧ Spec.tailOK body = true ∧
+    Proofs.Conf.isOkNonempty (parseConfig [] [] (fun _ => true)
+      (Spec.render ([b].flatMap Spec.blockToks ++ (.kw .maildir :: Spec.strsToks ([[99]] ++ [100] :: [[101]]))) ++ body)) = true ∧
+    Proofs.Conf.isErrorAt 1 (parseConfig [] [] (fun _ => true)
+      (Spec.render ([b].flatMap Spec.blockToks ++ (.kw .maildir :: Spec.strsToks ([[99]] ++ "~${x}".toUTF8.toList.tail :: [[101]]))) ++ body)) = true ∧
+    Proofs.Conf.isOkNonempty (parseConfig [] [] (fun _ => true) (Spec.printBlocks ([b] ++ b1 :: ([b] ++ [b])))) = true ∧
+    Proofs.Conf.isErrorAt 1 (parseConfig [] [] (fun _ => true) (Spec.printBlocks ([b] ++ b1 :: ([b] ++ b2 :: [b])))) = true := by
+  decide +kernel
+
+/-- The macro class stated on trees, for the positions that need no descent: a configuration written by
+`Spec.printBlocks` in which ONE string of ONE action holds a macro reference that cannot be expanded - the action being
+any of the six that take strings (`Spec.ActSite`; its leaf is `site.expr b`), at any place `as1 | as2` among the actions
+of a rule, the rule at any place `rs1 | rs2` among the rules of a block, the block at any place `pre | post` of the
+configuration - is rejected on line 1, provided what is written BEFORE the string is well formed (`hpos`: the blocks
+`pre` are a configuration of `Spec.ConfOK`, the paths can be written, the block is not a second `stdin` block, the rules
+`rs1`, the condition `c` and the actions `as1` are well formed).  Nothing is asked of `as2`, `rs2`, `post`.  (Strings in
+rules of nested blocks and of attachment blocks, in conditions and in paths: `C14_error_anywhere_rejects_file`.) -/
+theorem C14_error_action_string_rejects_file (home : Bytes) (rxOk : Pat → Bool) (pre post : List PBlock) (paths : List Bytes)
+    (rs1 rs2 : List CTree) (c : CTree) (as1 as2 : List CTree) (site : Spec.ActSite) (b : Bytes)
+    (hpos : ({ rp := { pre := pre, paths := paths, steps := rs1.map .rule }, cond := c, acts := as1 } : Spec.ActPos).ok rxOk = true)
+    (hsite : site.ok = true) (hb : Spec.BadRef site.action b) :
+    parseConfig home [] rxOk (Spec.printBlocks (pre ++
+      ⟨paths, Spec.blockOfRules (rs1 ++ Spec.ruleOfActs c (as1 ++ .leaf (site.expr b) :: as2) :: rs2)⟩ :: post)) = .error 1 :=
+  Proofs.Conf.action_string_file home rxOk pre post paths rs1 rs2 c as1 as2 site b hpos hsite hb
+
+/-- Non-vacuity: the second action of the second rule of the second block, `move "in${box}"`; with `move "in"` the
+configuration is in `Spec.ConfOK` and accepted. -/
+example :
+    let b0 : PBlock := ⟨[stdinStr], .block 1 (.mtch 1 (.leaf (.all 1)) (.leaf (.discard 1)))⟩
+    let r : CTree := .mtch 1 (.leaf (.new 1)) (.leaf (.pass 1))
+    let conf (b : Bytes) : List PBlock := [b0] ++
+      ⟨[[97]], Spec.blockOfRules ([r] ++ Spec.ruleOfActs (.leaf (.old 1)) ([.leaf (.brk 1)] ++ .leaf (Spec.ActSite.move.expr b) :: [.leaf (.pass 1)]) :: [r])⟩ :: [b0]
+    ({ rp := { pre := [b0], paths := [[97]], steps := [r].map .rule }, cond := .leaf (.old 1), acts := [.leaf (.brk 1)] } : Spec.ActPos).ok
+      (fun _ => true) = true ∧
+    Spec.printBlocks (conf "in${box}".toUTF8.toList) =
+      " stdin { match all discard } maildir { \"a\" } { match new pass match old break move \"in${box}\" pass match new pass } stdin { match all discard }".toUTF8.toList ∧
+    Spec.ConfOK (fun _ => true) ((conf "in".toUTF8.toList).take 2) = true ∧
+    Proofs.Conf.isOkNonempty (parseConfig [] [] (fun _ => true) (Spec.printBlocks ((conf "in".toUTF8.toList).take 2))) = true ∧
+    Proofs.Conf.isErrorAt 1 (parseConfig [] [] (fun _ => true) (Spec.printBlocks (conf "in${box}".toUTF8.toList))) = true := by
   decide +kernel
 
 end Mdsort.Props
